@@ -340,6 +340,9 @@ def run(ctx):
     _lskel.rule_L_SKELETON(ctx, which=('fold', 'term'), floor=10)
     import maps as _mb
     _mb.rule_M_BINFILL(ctx)
+    # the copula look-ahead that ends an atom name compares CHARACTER counts (seed c10-k: a byte length hides two-character Han copulas)
+    import maps as _m2
+    _m2.rule_U_CHARS(ctx)
     ctx.undecided = ["nothing value-dependent: the desugaring and index rules are shape facts; std's usize::from_str is trusted for the decimal syntax"]
     ctx.assumptions = ["Iterator::position returns the first index satisfying the predicate (std)", "usize::from_str parses decimal"]
     ctx.trusted = ["rustc nightly front end / MIR", "mirfacts driver", "python rule layer"]
